@@ -77,20 +77,13 @@ TRANSPORT = [
 ]
 
 PACKET = [
-    H("c01_pk_sliced_ethernet", "c01::packet", tier="thorough", unwind=5, timeout=7200, bounds="every byte string of length 0..=56, exact-size object", encodes=["SlicedPacket::from_ethernet + every accessor / iterator of the result"]),
-    H("c01_pk_sliced_sll", "c01::packet", tier="thorough", unwind=5, timeout=7200, bounds="every byte string of length 0..=56, exact-size object", encodes=["SlicedPacket::from_linux_sll + accessors"]),
-    H("c01_pk_sliced_ether_type", "c01::packet", tier="thorough", unwind=5, timeout=7200, bounds="every ether type x every byte string of length 0..=48, exact-size object", encodes=["SlicedPacket::from_ether_type + accessors"]),
-    H("c01_pk_sliced_ip", "c01::packet", tier="thorough", unwind=5, timeout=7200, bounds="every byte string of length 0..=56, exact-size object", encodes=["SlicedPacket::from_ip + accessors"]),
-    H("c01_pk_lax_sliced_ethernet", "c01::packet", tier="thorough", unwind=5, timeout=7200, bounds="every byte string of length 0..=56, exact-size object", encodes=["LaxSlicedPacket::from_ethernet + accessors"]),
-    H("c01_pk_lax_sliced_ether_type", "c01::packet", tier="thorough", unwind=5, timeout=7200, bounds="every ether type x every byte string of length 0..=48, exact-size object", encodes=["LaxSlicedPacket::from_ether_type + accessors"]),
-    H("c01_pk_lax_sliced_ip", "c01::packet", tier="thorough", unwind=5, timeout=7200, bounds="every byte string of length 0..=56, exact-size object", encodes=["LaxSlicedPacket::from_ip + accessors"]),
-    H("c01_pk_headers_ethernet", "c01::packet", tier="thorough", unwind=5, timeout=7200, bounds="every byte string of length 0..=56, exact-size object", encodes=["PacketHeaders::from_ethernet_slice"]),
-    H("c01_pk_headers_ether_type", "c01::packet", tier="thorough", unwind=5, timeout=7200, bounds="every ether type x every byte string of length 0..=48, exact-size object", encodes=["PacketHeaders::from_ether_type"]),
-    H("c01_pk_headers_ip", "c01::packet", tier="thorough", unwind=5, timeout=7200, bounds="every byte string of length 0..=56, exact-size object", encodes=["PacketHeaders::from_ip_slice"]),
-    H("c01_pk_lax_headers_ethernet", "c01::packet", tier="thorough", unwind=5, timeout=7200, bounds="every byte string of length 0..=56, exact-size object", encodes=["LaxPacketHeaders::from_ethernet"]),
-    H("c01_pk_lax_headers_sll", "c01::packet", tier="thorough", unwind=5, timeout=7200, bounds="every byte string of length 0..=56, exact-size object", encodes=["LaxPacketHeaders::from_linux_sll"]),
-    H("c01_pk_lax_headers_ether_type", "c01::packet", tier="thorough", unwind=5, timeout=7200, bounds="every ether type x every byte string of length 0..=48, exact-size object", encodes=["LaxPacketHeaders::from_ether_type"]),
-    H("c01_pk_lax_headers_ip", "c01::packet", tier="thorough", unwind=5, timeout=7200, bounds="every byte string of length 0..=56, exact-size object", encodes=["LaxPacketHeaders::from_ip"]),
+    H("c01_pk_sliced_ethernet", "c01::packet", tier="thorough", unwind=5, timeout=7200, bounds="every byte string of length 0..=48, exact-size object", encodes=["SlicedPacket::from_ethernet (slices cut by the cursor; accessors are decided per layer)"]),
+    H("c01_pk_sliced_sll", "c01::packet", tier="thorough", unwind=5, timeout=7200, bounds="every byte string of length 0..=48, exact-size object", encodes=["SlicedPacket::from_linux_sll"]),
+    H("c01_pk_sliced_ether_type", "c01::packet", tier="thorough", unwind=5, timeout=7200, bounds="every ether type x every byte string of length 0..=44, exact-size object", encodes=["SlicedPacket::from_ether_type"]),
+    H("c01_pk_sliced_ip", "c01::packet", tier="thorough", unwind=5, timeout=7200, bounds="every byte string of length 0..=56, exact-size object", encodes=["SlicedPacket::from_ip"]),
+    H("c01_pk_lax_sliced_ethernet", "c01::packet", tier="thorough", unwind=5, timeout=7200, bounds="every byte string of length 0..=48, exact-size object", encodes=["LaxSlicedPacket::from_ethernet"]),
+    H("c01_pk_lax_sliced_ether_type", "c01::packet", tier="thorough", unwind=5, timeout=7200, bounds="every ether type x every byte string of length 0..=44, exact-size object", encodes=["LaxSlicedPacket::from_ether_type"]),
+    H("c01_pk_lax_sliced_ip", "c01::packet", tier="thorough", unwind=5, timeout=7200, bounds="every byte string of length 0..=48, exact-size object", encodes=["LaxSlicedPacket::from_ip"]),
 ]
 
 # harnesses of other modules that run the same kind of decoder over an exact-size buffer; C01 / C02 read their
